@@ -6,6 +6,7 @@ Line-protocol component for C09: the ops of C08 plus
 * `post <op>` → `ok valid=… noempty=… nounit=… reach=… nocycle=… noleftrec=… leftfactored=… cnf=… loosecnf=…`:
   every post-condition of `Spec/C09.lean` evaluated on the Model's result of `<op>` (`noempty` relative to
   the input grammar) | `panic` | `hang`;
+* `post1 <op>` → `ok valid=… [noleftrec=… | cnf=…]`: validity and the op's own normal form only;
 * `parsers` → `ok unchanged predictive=returned|panic` (the implementation side hands the grammar to
   `predictive.BuildParsingTable` and the three LR table constructors and prints `ok MUTATED by <constructor>` when the
   caller's grammar differs from a clone taken before the call; `predictive=` says whether `BuildParsingTable` returned).
@@ -18,8 +19,21 @@ def showPost (orig g : G) : String :=
   s!"reach={showBool (allReachableB g)} nocycle={showBool (noCycleB g)} noleftrec={showBool (noLeftRecB g)} " ++
   s!"leftfactored={showBool (leftFactoredB g)} cnf={showBool (isCNFB g)} loosecnf={showBool (looseCNFB g)}"
 
+/-- `post1 <op>`: validity and the op's own normal form only (what does not depend on which of several equally good result
+grammars came out: cases whose result grammar depends on Go's iteration order) -/
+def showPost1 (op : String) (g : G) : String :=
+  s!"ok valid={showBool (validB g)}" ++
+  (if op = "leftrec" then s!" noleftrec={showBool (noLeftRecB g)}"
+   else if op = "cnf" then s!" cnf={showBool (isCNFB g)}" else "")
+
 def postOp (g : G) (ws : List String) : Option String :=
   match ws with
+  | ["post1", op] =>
+    match applyOp op g with
+    | some (.ok g') => some (showPost1 op g')
+    | some .panic => some "panic"
+    | some .diverge => some "hang"
+    | none => none
   | ["post", op] =>
     match applyOp op g with
     | some (.ok g') => some (showPost g g')
